@@ -8,6 +8,9 @@ Inductive sexp := Atom (s : string) | SList (l : list sexp).
 
 Inductive token := TOpen | TClose | TAtom (s : string).
 
+(* List.rev is quadratic; the wire reader handles long lines *)
+Definition fast_rev {A} (l : list A) : list A := rev_append l [].
+
 Fixpoint rev_string_acc (s acc : string) : string :=
   match s with EmptyString => acc | String c r => rev_string_acc r (String c acc) end.
 Definition rev_string (s : string) : string := rev_string_acc s EmptyString.
@@ -16,7 +19,7 @@ Definition rev_string (s : string) : string := rev_string_acc s EmptyString.
 Fixpoint tokenize (s : string) (cur : string) (acc : list token) : list token :=
   let flush acc := match cur with EmptyString => acc | _ => TAtom (rev_string cur) :: acc end in
   match s with
-  | EmptyString => rev (flush acc)
+  | EmptyString => fast_rev (flush acc)
   | String c r =>
       if Ascii.eqb c "("%char then tokenize r EmptyString (TOpen :: flush acc)
       else if Ascii.eqb c ")"%char then tokenize r EmptyString (TClose :: flush acc)
@@ -31,7 +34,7 @@ Fixpoint read_tokens (ts : list token) (stack : list (list sexp)) : option sexp 
   | TOpen :: r => read_tokens r ([] :: stack)
   | TClose :: r =>
       match stack with
-      | top :: next :: rest => read_tokens r ((SList (rev top) :: next) :: rest)
+      | top :: next :: rest => read_tokens r ((SList (fast_rev top) :: next) :: rest)
       | _ => None
       end
   | TAtom a :: r =>
